@@ -15,11 +15,11 @@ func init() {
 		id:  "C07",
 		run: runC07,
 		explanation: "Decided (structural, for every Put/Get sequence and capacity): " +
-			"C07.keymatch — Get returns the bitmap of the element found under exactly the requested key; Put stores a new element under the key it records in the item; eviction deletes the map entry under the evicted item's own key; " +
+			"C07.keymatch — Get returns the bitmap of the element found under exactly the requested key (the lookup may sit in a helper that hands back the element found and/or its bitmap under a flag that is true only when found); Put stores a new element under the key it records in the item (the item may be built by a constructor helper, whose parameters are bound to the call's arguments); eviction deletes the map entry under the evicted item's own key; " +
 			"C07.putstore — every path through Put looks the key up, and when the key is present every path stores the new bitmap into the found item before returning (no return in front of the lookup, no skipped overwrite); " +
-			"C07.touch — the hit path of Get and the existing-key path of Put move the element to the front on every path, inserts push to the front, eviction removes the element at the back; " +
-			"C07.account — every update of the byte counter adds or subtracts the same expression of an item (its recorded size plus the same overhead constants); wherever a bitmap is stored into an item the item's size is set to that bitmap's GetSizeInBytes() (also when overwriting); every path that increases the counter reaches the eviction loop before returning, and the loop removes from the back while counter > capacity and the list is non-empty (capacity 0 needs no special case); " +
-			"C07.counters — on every path Get/Put increment their call counter exactly once unless it is nil, a return of (bitmap, true) has passed exactly the hit counter, a return of (nil, false) exactly the miss counter. " +
+			"C07.touch — the hit path of Get and the existing-key path of Put move the element to the front on every path (after a lookup helper: its caller, on the branch of the helper's found flag; a helper that moves only `if entries[key] == elem` counts when it is handed the key the element was found under and the map cannot have changed in between), inserts push to the front, eviction removes the element at the back; " +
+			"C07.account — every update of the byte counter adds or subtracts the same expression of an item (its recorded size plus the same overhead constants; a derived item field such as item.cost may stand for it iff every store of that field stores that item's size plus the same overhead and every store of item.size is followed by one — a size set without recomputing the field is reported); wherever a bitmap is stored into an item the item's size is set to that bitmap's GetSizeInBytes() (also when overwriting); every path that increases the counter reaches the eviction loop before returning, and the loop removes from the back while counter > capacity and the list is non-empty (capacity 0 needs no special case); " +
+			"C07.counters — on every path Get/Put increment their call counter exactly once unless it is nil, a return of (bitmap, true) has passed exactly the hit counter, a return of (nil, false) exactly the miss counter (counting moved into a helper is summarised: on all of the helper's paths, or exactly on the paths selected by a boolean parameter whose argument is decided at the return in question). " +
 			"NOT decided: that GetSizeInBytes is the true in-memory size (roaring, trusted); 'nothing is evicted while everything fits comfortably' as arithmetic over sizes.",
 		assumptions: []string{"container/list semantics (MoveToFront/PushFront/Back/Remove)", "roaring GetSizeInBytes", "go/ssa CFG"},
 	})
@@ -65,6 +65,10 @@ func runC07(c *Ctx) {
 type lruCtx struct {
 	c                                                    *Ctx
 	entries, list, curSize, maxSize, itKey, itSize, itBM *types.Var
+	// derived caches derivedDef per item field (present with a nil value while the field's definition is being
+	// established); sizeVals is set only while a store to a derived field is decomposed (see derivedDef)
+	derived  map[*types.Var]*derivedInfo
+	sizeVals map[ssa.Value]ssa.Value
 }
 
 // itemOf: v is `elem.Value.(*lruCacheItem)` (or the comma-ok form); returns elem.
@@ -157,6 +161,151 @@ func (L *lruCtx) lookups(fn *ssa.Function) []*ssa.Lookup {
 	return out
 }
 
+// useLookups: the lookups of fn whose result is used. A lookup whose value is only compared (`if c.entries[key] == elem`,
+// the re-validation of an element that was looked up earlier) finds nothing for the caller and is not one of them.
+func (L *lruCtx) useLookups(fn *ssa.Function) []*ssa.Lookup {
+	var out []*ssa.Lookup
+	for _, lk := range L.lookups(fn) {
+		onlyCompared := !lk.CommaOk && len(referrers(lk)) > 0
+		for _, r := range referrers(lk) {
+			if b, ok := r.(*ssa.BinOp); !ok || (b.Op != token.EQL && b.Op != token.NEQ) {
+				onlyCompared = false
+			}
+		}
+		if !onlyCompared {
+			out = append(out, lk)
+		}
+	}
+	return out
+}
+
+// entriesWrite: i may change the entries map (insert, delete, replacing the map), itself or in a module function it calls.
+func (L *lruCtx) entriesWrite(i ssa.Instruction) bool {
+	direct := func(j ssa.Instruction) bool {
+		switch x := j.(type) {
+		case *ssa.MapUpdate:
+			return path(x.Map).lastField() == L.entries
+		case *ssa.Store:
+			fa, ok := x.Addr.(*ssa.FieldAddr)
+			return ok && fieldOf(fa.X.Type(), fa.Field) == L.entries
+		case *ssa.Call:
+			if b, ok := x.Call.Value.(*ssa.Builtin); ok {
+				return (b.Name() == "delete" || b.Name() == "clear") && len(x.Call.Args) > 0 && path(x.Call.Args[0]).lastField() == L.entries
+			}
+		}
+		return false
+	}
+	return L.c.fc.ipTarget(direct)(i)
+}
+
+// An lruFinder is a helper of Get (or Put) that does the map lookup for its caller: `elem, bm, ok := c.lookup(key)`.
+type lruFinder struct {
+	call       *ssa.Call // the one call of the helper in the anchor
+	h          *ssa.Function
+	lk         *ssa.Lookup
+	key        ssa.Value // the anchor's argument that the helper looks up (nil: the helper looks up something else)
+	ei, bi, fi int       // result indices of the element, of its bitmap and of the found flag (-1: not returned)
+	bad        ssa.Instruction
+	why        string
+}
+
+// result: the anchor's value for result idx of the finder call (nil if not returned or not used).
+func (fd *lruFinder) result(idx int) ssa.Value {
+	if idx < 0 {
+		return nil
+	}
+	if v := resultValue(fd.call, idx); v != nil {
+		return v
+	}
+	return nil
+}
+
+// finder recognises the lookup helper of anchor: the only module function called from anchor (once) that has exactly one
+// used lookup in the entries map, returning a found flag that is true only on returns dominated by the lookup's ok,
+// where it returns the element found and/or the bitmap of the item in that very element. fd.bad is set to a return
+// that does not have this shape (a helper that hands back the bitmap of some other element is reported there).
+func (L *lruCtx) finder(anchor *ssa.Function) *lruFinder {
+	var fd *lruFinder
+	n := 0
+	allInstrs(anchor, func(i ssa.Instruction) {
+		call, ok := i.(*ssa.Call)
+		if !ok {
+			return
+		}
+		h := calleeFunc(&call.Call)
+		if h == nil || h == anchor || !L.c.w.inModule(h) || h.Blocks == nil || len(L.useLookups(h)) != 1 {
+			return
+		}
+		n++
+		fd = &lruFinder{call: call, h: h, lk: L.useLookups(h)[0], ei: -1, bi: -1, fi: -1}
+	})
+	if n != 1 {
+		return nil
+	}
+	h, lk := fd.h, fd.lk
+	if a := argFor(fd.call, h, lk.Index); a != nil {
+		fd.key = a
+	}
+	res := h.Signature.Results()
+	for k := 0; k < res.Len(); k++ {
+		t := res.At(k).Type()
+		switch {
+		case typeIs(t, "container/list", "Element"):
+			fd.ei = k
+		case typeIs(t, roaringPkg, "Bitmap"):
+			fd.bi = k
+		default:
+			if b, ok := t.Underlying().(*types.Basic); ok && b.Kind() == types.Bool {
+				fd.fi = k
+			}
+		}
+	}
+	elem, okv := extractOf(lk, 0), extractOf(lk, 1)
+	if fd.fi < 0 || (fd.ei < 0 && fd.bi < 0) || elem == nil || okv == nil {
+		return nil
+	}
+	allInstrs(h, func(i ssa.Instruction) {
+		ret, ok := i.(*ssa.Return)
+		if !ok || isRecoverBlockReturn(ret) || fd.bad != nil {
+			return
+		}
+		rv := retVals(ret)
+		found, isK := constBool(rv[fd.fi])
+		switch {
+		case isK && !found:
+			return
+		case isK:
+			if !knownTrue(okv, ret) {
+				fd.bad, fd.why = ret, "the lookup helper reports found on a path on which the key was not found"
+				return
+			}
+		case rv[fd.fi] == ssa.Value(okv) && fd.bi < 0:
+			// `return elem, ok`: the element is only meaningful to the caller under ok
+		default:
+			fd.bad, fd.why = ret, "the lookup helper's found flag is neither a constant nor the lookup's ok"
+			return
+		}
+		if fd.ei >= 0 && peel(rv[fd.ei]) != ssa.Value(elem) {
+			fd.bad, fd.why = ret, "the lookup helper does not return the element it found under the key"
+			return
+		}
+		if fd.bi >= 0 {
+			okBM := false
+			if ld, ok := peel(rv[fd.bi]).(*ssa.UnOp); ok {
+				if fa, ok := ld.X.(*ssa.FieldAddr); ok && fieldOf(fa.X.Type(), fa.Field) == L.itBM {
+					if e := L.elemOfItem(fa.X); e != nil && peel(e) == ssa.Value(elem) {
+						okBM = true
+					}
+				}
+			}
+			if !okBM {
+				fd.bad, fd.why = ret, "the lookup helper does not return the bitmap stored in the element it found under the key"
+			}
+		}
+	})
+	return fd
+}
+
 func listCalls(fn *ssa.Function, method string) []*ssa.Call {
 	var out []*ssa.Call
 	allInstrs(fn, func(i ssa.Instruction) {
@@ -179,16 +328,35 @@ func (L *lruCtx) keymatch() {
 		}
 		return nil
 	}
-	// Get: lookup by the key parameter; hit return derives from that element
+	// Get: lookup by the key parameter; hit return derives from that element. The lookup may sit in a helper
+	// (`elem, bm, ok := c.lookup(key)`): then the helper is checked to hand back the element found / its bitmap under a
+	// flag that is true only when found (finder), and Get's own returns are checked against the helper's results.
 	gk := keyParam(get)
-	lks := L.lookups(get)
-	if len(lks) != 1 || gk == nil {
+	lks := L.useLookups(get)
+	var fd *lruFinder
+	if len(lks) == 0 && gk != nil {
+		fd = L.finder(get)
+	}
+	if (len(lks) != 1 && fd == nil) || gk == nil {
 		c.r.undecided(rule, safeFname(get), fmt.Sprintf("expected one lookup in the entries map, found %d", len(lks)), c.w.pos(get.Pos()))
 	} else {
-		lk := lks[0]
-		c.r.check(lk.Index == gk, rule, safeFname(get)+": lookup key", "entries[key] with the requested key", "Get looks up something other than the requested key", c.w.ipos(lk))
-		elem := extractOf(lk, 0)
-		okv := extractOf(lk, 1)
+		var elem, okv, bmv ssa.Value // the element found, the found flag, the found element's bitmap (helper result only)
+		if fd != nil {
+			c.r.check(fd.key == gk, rule, safeFname(get)+": lookup key", "entries[key] with the requested key", "Get looks up something other than the requested key", c.w.ipos(fd.call), c.w.ipos(fd.lk))
+			if fd.bad != nil {
+				c.r.bad(rule, safeFname(get)+": hit return", fd.why+": a hit does not return the bitmap stored in the element found under the requested key", []string{c.w.ipos(fd.bad)})
+			}
+			elem, okv, bmv = fd.result(fd.ei), fd.result(fd.fi), fd.result(fd.bi)
+		} else {
+			lk := lks[0]
+			c.r.check(lk.Index == gk, rule, safeFname(get)+": lookup key", "entries[key] with the requested key", "Get looks up something other than the requested key", c.w.ipos(lk))
+			if e := extractOf(lk, 0); e != nil {
+				elem = e
+			}
+			if e := extractOf(lk, 1); e != nil {
+				okv = e
+			}
+		}
 		nHit := 0
 		allInstrs(get, func(i ssa.Instruction) {
 			ret, ok := i.(*ssa.Return)
@@ -197,7 +365,7 @@ func (L *lruCtx) keymatch() {
 			}
 			rv := retVals(ret)
 			if b, isK := constBool(rv[1]); !isK || !b {
-				if !isK && okv != nil && rv[1] != ssa.Value(okv) {
+				if !isK && okv != nil && rv[1] != okv {
 					c.r.undecided(rule, safeFname(get)+": found flag", "the found flag returned is neither a constant nor the lookup's ok", c.w.ipos(ret))
 				}
 				if isK && !b {
@@ -206,11 +374,13 @@ func (L *lruCtx) keymatch() {
 				return
 			}
 			nHit++
-			// value: load of item.bm with item = elem.Value.(*lruCacheItem)
+			// value: load of item.bm with item = elem.Value.(*lruCacheItem), or the bitmap the lookup helper read that way
 			okVal := false
-			if ld, ok := peel(rv[0]).(*ssa.UnOp); ok {
+			if bmv != nil && peel(rv[0]) == bmv {
+				okVal = true
+			} else if ld, ok := peel(rv[0]).(*ssa.UnOp); ok {
 				if fa, ok := ld.X.(*ssa.FieldAddr); ok && fieldOf(fa.X.Type(), fa.Field) == L.itBM {
-					if e := L.elemOfItem(fa.X); e != nil && elem != nil && peel(e) == ssa.Value(elem) {
+					if e := L.elemOfItem(fa.X); e != nil && elem != nil && peel(e) == elem {
 						okVal = true
 					}
 				}
@@ -232,26 +402,31 @@ func (L *lruCtx) keymatch() {
 	}
 	nIns := 0
 	// the key / bitmap as seen inside a helper of Put: the helper's parameter that receives Put's key / bitmap
-	sameAsPutParam := func(v ssa.Value, putParam ssa.Value) bool {
+	// (also through a helper of a helper — `insert(key, bm)` calling `newItem(key, bm)`: every call of the helper in
+	// Put's scope must hand on Put's own parameter)
+	putScope := c.scope(put, 2)
+	var sameAs func(v ssa.Value, putParam ssa.Value, depth int) bool
+	sameAs = func(v ssa.Value, putParam ssa.Value, depth int) bool {
 		if v == putParam {
 			return true
 		}
 		par, ok := v.(*ssa.Parameter)
-		if !ok || par.Parent() == put {
+		if !ok || par.Parent() == put || depth <= 0 {
 			return false
 		}
 		h := par.Parent()
 		okAll, n := true, 0
-		allInstrs(put, func(j ssa.Instruction) {
-			if call, ok := j.(*ssa.Call); ok && calleeFunc(&call.Call) == h {
+		instrsOf(putScope, func(j ssa.Instruction) {
+			if call, ok := j.(*ssa.Call); ok && calleeFunc(&call.Call) == h && j.Parent() != h {
 				n++
-				if argFor(call, h, par) != putParam {
+				if a := argFor(call, h, par); a == nil || !sameAs(a, putParam, depth-1) {
 					okAll = false
 				}
 			}
 		})
 		return n > 0 && okAll
 	}
+	sameAsPutParam := func(v ssa.Value, putParam ssa.Value) bool { return sameAs(v, putParam, 2) }
 	instrsOf(c.scope(put, 2), func(i ssa.Instruction) {
 		mu, ok := i.(*ssa.MapUpdate)
 		if !ok || path(mu.Map).lastField() != L.entries {
@@ -264,6 +439,26 @@ func (L *lruCtx) keymatch() {
 		if call, ok := mu.Value.(*ssa.Call); ok && strings.HasPrefix(calleeName(&call.Call), "(*container/list.List).Push") {
 			if mi, ok := call.Call.Args[1].(*ssa.MakeInterface); ok {
 				item = peel(mi.X)
+			}
+		}
+		// a constructor (`item := newItem(key, bm)`): the item is the one object the module helper allocates and
+		// returns on every path; its fields are stored in the helper, whose parameters sameAsPutParam binds to the
+		// arguments of the call(s) — a constructor that is handed or records another key is still reported
+		if cc, ok := item.(*ssa.Call); ok {
+			item = nil
+			if _, _, vals, ok := resultOrigins(c.w, cc); ok {
+				var obj ssa.Value
+				one := true
+				for _, v := range vals {
+					pv := peel(v)
+					if _, isAlloc := pv.(*ssa.Alloc); !isAlloc || (obj != nil && obj != pv) {
+						one = false
+					}
+					obj = pv
+				}
+				if one {
+					item = obj
+				}
 			}
 		}
 		if item == nil {
@@ -391,6 +586,10 @@ func (L *lruCtx) putstore(put *ssa.Function, pk, bmParam ssa.Value, sameAsPutPar
 				if c.fc.ipAvoid(isStore)(first) {
 					continue
 				}
+				if isRet(first) {
+					w = []ssa.Instruction{first} // the path search starts behind `first`
+					continue
+				}
 				if ww := c.fc.pathAvoiding(fn, first, isRet, c.fc.ipAvoid(isStore)); ww != nil {
 					w = ww
 				}
@@ -431,6 +630,19 @@ func (L *lruCtx) putstore(put *ssa.Function, pk, bmParam ssa.Value, sameAsPutPar
 // touchOf returns the predicate "this instruction moves element e to the front of the recency list": the list call
 // itself, or a call of a module helper that receives e and moves that parameter to the front on every path.
 func (L *lruCtx) touchOf(e ssa.Value, depth int) func(ssa.Instruction) bool {
+	return L.touchOfFound(e, nil, nil, depth)
+}
+
+// touchOfFound is touchOf for an element that was found in the entries map under `key` by the instruction `since` (the
+// lookup, or the call of the lookup helper) of the function the predicate is applied in. It also accepts a helper that
+// re-validates before it moves (`if c.entries[key] == elem { c.lruList.MoveToFront(elem) }`, the touch taken under a
+// lock of its own): the path around MoveToFront is the one on which entries[key] is no longer elem, and that cannot
+// be taken — in the sequential reading C07 is about — when the helper is handed the same key and no instruction that
+// may change the map lies between `since` and the call, nor in the helper in front of the comparison. A helper that
+// compares something else, or a caller that changes the map in between, is not accepted.
+func (L *lruCtx) touchOfFound(e, key ssa.Value, since ssa.Instruction, depth int) func(ssa.Instruction) bool {
+	fc := L.c.fc
+	isRet := func(i ssa.Instruction) bool { _, ok := i.(*ssa.Return); return ok }
 	return func(i ssa.Instruction) bool {
 		call, ok := i.(*ssa.Call)
 		if !ok {
@@ -446,9 +658,71 @@ func (L *lruCtx) touchOf(e ssa.Value, depth int) func(ssa.Instruction) bool {
 		args := callArgs(&call.Call)
 		for k, a := range args {
 			if a == e && k < len(h.Params) {
-				if L.c.fc.mustPass(h, L.touchOf(h.Params[k], depth-1), 0) {
+				if fc.mustPass(h, L.touchOf(h.Params[k], depth-1), 0) {
 					return true
 				}
+				if key == nil || since == nil || since.Parent() != call.Parent() || !fc.canReturn(h) {
+					continue
+				}
+				stale := L.revalidationFails(h, h.Params[k], call, key)
+				if stale == nil || fc.pathFrom(h, nil, isRet, L.touchOf(h.Params[k], depth-1), stale) != nil {
+					continue
+				}
+				changed := false
+				allInstrs(call.Parent(), func(w ssa.Instruction) {
+					if w != ssa.Instruction(call) && w != since && L.entriesWrite(w) && fc.reachableFrom(call.Parent(), since, w) && fc.reachableFrom(call.Parent(), w, call) {
+						changed = true
+					}
+				})
+				if !changed {
+					return true
+				}
+			}
+		}
+		return false
+	}
+}
+
+// revalidationFails returns the predicate on CFG edges of helper h "the comparison entries[k] == ePar came out false",
+// where k is the parameter of h that the call binds to key and nothing in h may change the map before the comparison;
+// nil if h has no such comparison.
+func (L *lruCtx) revalidationFails(h *ssa.Function, ePar ssa.Value, call *ssa.Call, key ssa.Value) func(pred, succ *ssa.BasicBlock) bool {
+	fc := L.c.fc
+	isCurrent := func(v ssa.Value) bool {
+		lk, ok := v.(*ssa.Lookup)
+		if !ok || lk.CommaOk || path(lk.X).lastField() != L.entries {
+			return false
+		}
+		if a := argFor(call, h, lk.Index); a == nil || a != key {
+			return false
+		}
+		changed := false
+		allInstrs(h, func(w ssa.Instruction) {
+			if L.entriesWrite(w) && fc.reachableFrom(h, w, lk) {
+				changed = true
+			}
+		})
+		return !changed
+	}
+	any := false
+	allInstrs(h, func(i ssa.Instruction) {
+		if b, ok := i.(*ssa.BinOp); ok && (b.Op == token.EQL || b.Op == token.NEQ) {
+			if (b.X == ePar && isCurrent(b.Y)) || (b.Y == ePar && isCurrent(b.X)) {
+				any = true
+			}
+		}
+	})
+	if !any {
+		return nil
+	}
+	return func(pred, succ *ssa.BasicBlock) bool {
+		iff, ok := pred.Instrs[len(pred.Instrs)-1].(*ssa.If)
+		if !ok || len(pred.Succs) != 2 || pred.Succs[0] == pred.Succs[1] {
+			return false
+		}
+		for _, cm := range trueCmps(fact{iff.Cond, pred.Succs[0] == succ}) {
+			if cm.Op == token.NEQ && cm.Y != nil && ((cm.X == ePar && isCurrent(cm.Y)) || (cm.Y == ePar && isCurrent(cm.X))) {
+				return true
 			}
 		}
 		return false
@@ -484,48 +758,108 @@ func (L *lruCtx) isEmptyListTest(i ssa.Instruction) bool {
 func (L *lruCtx) touch() {
 	const rule = "C07.touch"
 	c := L.c
-	var lookupFns []*ssa.Function
+	type lookupFn struct{ fn, anchor *ssa.Function }
+	var lookupFns []lookupFn
 	for _, anchor := range []*ssa.Function{c.a.LRUGet, c.a.LRUPut} {
 		for _, f := range c.scope(anchor, 2) {
-			if len(L.lookups(f)) > 0 {
-				lookupFns = append(lookupFns, f)
+			if len(L.useLookups(f)) > 0 {
+				lookupFns = append(lookupFns, lookupFn{f, anchor})
 			}
 		}
 	}
-	for _, fn := range lookupFns {
-		lks := L.lookups(fn)
+	isRet := func(i ssa.Instruction) bool { _, ok := i.(*ssa.Return); return ok }
+	// foundPath: from the first instruction of every branch on which okv is known true, every path of fn to a return
+	// moves elem to the front. branches == 0: fn never branches on okv.
+	foundPath := func(fn *ssa.Function, elem, okv, key ssa.Value, since ssa.Instruction) (branches int, witness []ssa.Instruction) {
+		isTouch := L.touchOfFound(elem, key, since, 2)
+		for _, b := range fn.Blocks {
+			if len(b.Preds) != 1 {
+				continue
+			}
+			p := b.Preds[0]
+			iff, ok := p.Instrs[len(p.Instrs)-1].(*ssa.If)
+			if !ok || len(p.Succs) != 2 || p.Succs[0] == p.Succs[1] {
+				continue
+			}
+			onFound := false
+			for _, cm := range trueCmps(fact{iff.Cond, p.Succs[0] == b}) {
+				if cm.Y == nil && cm.Op == token.EQL && cm.X == okv {
+					onFound = true
+				}
+			}
+			if !onFound {
+				continue
+			}
+			branches++
+			first := b.Instrs[0]
+			if isTouch(first) {
+				continue
+			}
+			// (the search starts behind `first`: a found branch that begins with the return is a path of its own)
+			if isRet(first) {
+				if witness == nil {
+					witness = []ssa.Instruction{first}
+				}
+				continue
+			}
+			if w := c.fc.pathAvoiding(fn, first, isRet, isTouch); w != nil && witness == nil {
+				witness = w
+			}
+		}
+		return
+	}
+	const untouched = "an existing entry is used without being moved to the front of the recency list on some path: eviction order is no longer least-recently-used"
+	for _, lf := range lookupFns {
+		fn := lf.fn
+		lks := L.useLookups(fn)
 		if len(lks) != 1 {
 			continue
 		}
-		elem, okv := extractOf(lks[0], 0), extractOf(lks[0], 1)
-		if elem == nil || okv == nil {
-			c.r.bad(rule, safeFname(fn)+": found path", "the lookup result is not used as (element, found)", []string{c.w.ipos(lks[0])})
-			continue
+		key := safeFname(fn) + ": found path"
+		var elem, okv ssa.Value
+		if e := extractOf(lks[0], 0); e != nil {
+			elem = e
 		}
-		isTouch := L.touchOf(elem, 2)
-		// from the first instruction of the found branch to any return: must pass MoveToFront(elem)
-		var foundBlk *ssa.BasicBlock
-		for _, b := range fn.Blocks {
-			if len(b.Preds) == 1 {
-				p := b.Preds[0]
-				if iff, ok := p.Instrs[len(p.Instrs)-1].(*ssa.If); ok && iff.Cond == ssa.Value(okv) && p.Succs[0] == b {
-					foundBlk = b
-				}
+		if e := extractOf(lks[0], 1); e != nil {
+			okv = e
+		}
+		// a lookup helper (`elem, bm, ok := c.lookup(key)`) that does not move the element itself: its caller has to,
+		// on the branch on which the helper's found flag is true, with the element the helper returned
+		var fd *lruFinder
+		if fn != lf.anchor {
+			if f := L.finder(lf.anchor); f != nil && f.h == fn && f.bad == nil && f.ei >= 0 {
+				fd = f
 			}
 		}
-		if foundBlk == nil {
-			c.r.undecided(rule, safeFname(fn)+": found path", "no branch on the lookup's found flag", c.w.ipos(lks[0]))
+		if elem == nil || okv == nil {
+			c.r.bad(rule, key, "the lookup result is not used as (element, found)", []string{c.w.ipos(lks[0])})
 			continue
 		}
-		first := foundBlk.Instrs[0]
-		if isTouch(first) {
-			c.r.ok(rule, safeFname(fn)+": found path", "moves the element to the front", c.w.ipos(first))
+		branches, w := foundPath(fn, elem, okv, lks[0].Index, lks[0])
+		if fd != nil && (branches == 0 || w != nil) {
+			celem, cokv := fd.result(fd.ei), fd.result(fd.fi)
+			if celem == nil || cokv == nil {
+				c.r.bad(rule, key, "the lookup helper's caller does not use its result as (element, found): "+untouched, []string{c.w.ipos(fd.call)})
+				continue
+			}
+			branches, w = foundPath(lf.anchor, celem, cokv, fd.key, fd.call)
+			switch {
+			case branches == 0:
+				c.r.undecided(rule, key, "no branch on the lookup helper's found flag in its caller", c.w.ipos(fd.call))
+			case w != nil:
+				c.r.bad(rule, key, untouched, []string{c.w.ipos(fd.call)}, c.fc.witnessStrings(w)...)
+			default:
+				c.r.ok(rule, key, "the caller of the lookup helper moves the element to the front on every path", c.w.ipos(fd.call))
+			}
 			continue
 		}
-		if p := c.fc.pathAvoiding(fn, first, func(i ssa.Instruction) bool { _, ok := i.(*ssa.Return); return ok }, isTouch); p != nil {
-			c.r.bad(rule, safeFname(fn)+": found path", "an existing entry is used without being moved to the front of the recency list on some path: eviction order is no longer least-recently-used", []string{c.w.ipos(lks[0])}, c.fc.witnessStrings(p)...)
-		} else {
-			c.r.ok(rule, safeFname(fn)+": found path", "moves the element to the front on every path", c.w.ipos(lks[0]))
+		switch {
+		case branches == 0:
+			c.r.undecided(rule, key, "no branch on the lookup's found flag", c.w.ipos(lks[0]))
+		case w != nil:
+			c.r.bad(rule, key, untouched, []string{c.w.ipos(lks[0])}, c.fc.witnessStrings(w)...)
+		default:
+			c.r.ok(rule, key, "moves the element to the front on every path", c.w.ipos(lks[0]))
 		}
 	}
 	put := c.a.LRUPut
@@ -561,6 +895,11 @@ type costTerm struct {
 	item ssa.Value // for size terms: the item whose size is read
 	load ssa.Instruction
 	when string // for size terms: "old" (read before the item's size is overwritten in this call), "new" (after), "" (item's size is not written here)
+	// via: the size is read through a derived field of the item (item.cost, kept equal to item.size + overhead, see
+	// derivedDef): old/new is then relative to the stores of that field. val: the term is not a load at all but the
+	// very value stored into item.size in the same function (only while a derived field's definition is decomposed).
+	via *types.Var
+	val ssa.Value
 }
 
 // signedTerms decomposes e (to be added with the given sign) into summands; calls to small module helpers are expanded.
@@ -568,6 +907,10 @@ func (L *lruCtx) signedTerms(e ssa.Value, sign int, at ssa.Instruction, bind map
 	e = peelConv(e)
 	if b, ok := bind[e]; ok {
 		e = b
+	}
+	if item, ok := L.sizeVals[e]; ok {
+		*out = append(*out, costTerm{sign: sign, kind: "size", item: item, val: e})
+		return
 	}
 	switch x := e.(type) {
 	case *ssa.BinOp:
@@ -603,6 +946,27 @@ func (L *lruCtx) signedTerms(e ssa.Value, sign int, at ssa.Instruction, bind map
 				*out = append(*out, costTerm{sign: sign, kind: "size", item: peel(item), load: pos})
 				return
 			}
+			// a derived field of the item (item.cost == item.size + overhead wherever the size is set): reading it is
+			// reading the size plus that overhead, as of the last store of the derived field
+			if fa, ok := x.X.(*ssa.FieldAddr); ok {
+				if f := fieldOf(fa.X.Type(), fa.Field); L.isItemCounterField(f) {
+					if d := L.derivedDef(f); d != nil && d.defined {
+						item := fa.X
+						if b, ok := bind[item]; ok {
+							item = b
+						}
+						pos := ssa.Instruction(x)
+						if at != nil && x.Parent() != at.Parent() {
+							pos = at
+						}
+						*out = append(*out, costTerm{sign: sign, kind: "size", item: peel(item), load: pos, via: f})
+						for _, o := range d.overhead {
+							*out = append(*out, costTerm{sign: sign * o.sign, kind: o.kind})
+						}
+						return
+					}
+				}
+			}
 		}
 	case *ssa.Const:
 		*out = append(*out, costTerm{sign: sign, kind: "const:" + x.Value.ExactString()})
@@ -624,6 +988,163 @@ func (L *lruCtx) signedTerms(e ssa.Value, sign int, at ssa.Instruction, bind map
 	*out = append(*out, costTerm{sign: sign, kind: "?"})
 }
 
+// derivedInfo is the established definition of a derived field of the cache item: item.F == item.size + overhead.
+type derivedInfo struct {
+	defined  bool       // (a) every store of the field stores that item's size plus the same overhead
+	ok       bool       // … and (b) every store of item.size is followed by one
+	overhead []costTerm // the summands next to the size
+}
+
+// isItemCounterField: f is an integer field of the item type other than its key and its size.
+func (L *lruCtx) isItemCounterField(f *types.Var) bool {
+	if f == nil || f == L.itKey || f == L.itSize || L.c.w.ownerOf(f) != L.c.a.LRUItemT {
+		return false
+	}
+	b, ok := f.Type().Underlying().(*types.Basic)
+	return ok && b.Info()&types.IsInteger != 0
+}
+
+// before: a executes before b on every path on which both execute once (same block: earlier; else a's block
+// strictly dominates b's).
+func before(a, b ssa.Instruction) bool {
+	if a.Block() == b.Block() {
+		return pointOf(a).i < pointOf(b).i
+	}
+	return a.Parent() == b.Parent() && a.Block().Dominates(b.Block())
+}
+
+// derivedDef decides whether item field f is a *derived* field — a cached copy of the entry's cost — so that the byte
+// counter may be kept as the sum of item.f instead of the sum of item.size + overhead:
+//
+//	(a) every store of item.f in the package stores `size of that item + the same overhead constants`, where the size
+//	    is a load of item.size that is not older than a store of item.size in front of the store of f, or the very
+//	    value that the same function stores into item.size (`size := bm.GetSizeInBytes(); &item{size: size, cost: cost(size)}`);
+//	(b) every store of item.size in the package is followed on every path to a return by such a store of item.f for
+//	    the same item (or stands next to one that uses the stored value itself). A size that changes without the
+//	    derived field being recomputed is the defect "stale cost": what is subtracted when the entry is evicted later
+//	    is not what the counter holds for it.
+//
+// Failures are reported once, under C07.account[derived field <f>]; a field whose stores do not agree on one definition
+// (a) also makes the counter updates that read it undecomposable (reported by account as today). nil: f is never stored.
+func (L *lruCtx) derivedDef(f *types.Var) *derivedInfo {
+	if d, ok := L.derived[f]; ok {
+		return d // nil while being established: a definition in terms of itself is none
+	}
+	if L.derived == nil {
+		L.derived = map[*types.Var]*derivedInfo{}
+	}
+	L.derived[f] = nil
+	const rule = "C07.account"
+	c := L.c
+	key := "derived field " + f.Name()
+	var fns []*ssa.Function
+	for _, fn := range c.w.ModFuncs {
+		if c.w.pkgPathOf(fn) == pkgRoot {
+			fns = append(fns, fn)
+		}
+	}
+	dStores, sStores := storesTo(fns, f), storesTo(fns, L.itSize)
+	if len(dStores) == 0 {
+		return nil
+	}
+	itemOf := func(st *ssa.Store) ssa.Value { return peel(st.Addr.(*ssa.FieldAddr).X) }
+	d := &derivedInfo{ok: true}
+	sizeTerm := map[*ssa.Store]costTerm{}
+	ohs, have := "", false
+	for _, ds := range dStores {
+		item := itemOf(ds)
+		L.sizeVals = map[ssa.Value]ssa.Value{}
+		for _, ss := range sStores {
+			if ss.Parent() == ds.Parent() && itemOf(ss) == item {
+				L.sizeVals[ss.Val] = item
+				L.sizeVals[peelConv(ss.Val)] = item
+			}
+		}
+		var terms []costTerm
+		L.signedTerms(ds.Val, +1, nil, map[ssa.Value]ssa.Value{}, 0, &terms)
+		L.sizeVals = nil
+		var size []costTerm
+		var oh []costTerm
+		var kinds []string
+		shape := true
+		for _, t := range terms {
+			switch {
+			case t.kind == "size" && t.sign > 0 && t.item == item && t.via == nil:
+				size = append(size, t)
+			case t.kind == "size" || t.kind == "?" || t.kind == "counter" || t.sign < 0:
+				shape = false
+			default:
+				oh = append(oh, t)
+				kinds = append(kinds, t.kind)
+			}
+		}
+		sort.Strings(kinds)
+		if !shape || len(size) != 1 {
+			c.r.bad(rule, key, "item."+f.Name()+" is read by the byte counter's arithmetic but is stored with something other than that item's size plus overhead constants: the counter is not the sum of what the entries are charged with", []string{c.w.ipos(ds)})
+			d.ok = false
+			continue
+		}
+		if t := size[0]; t.load != nil {
+			for _, ss := range sStores {
+				if ss.Parent() == ds.Parent() && itemOf(ss) == item && t.load.Parent() == ss.Parent() && before(t.load, ss) && before(ss, ds) {
+					c.r.bad(rule, key, "item."+f.Name()+" is computed from the size the item had before its size was overwritten: the entry is charged with the cost of its previous bitmap", []string{c.w.ipos(ds)})
+					d.ok = false
+				}
+			}
+		}
+		sizeTerm[ds] = size[0]
+		if !have {
+			d.overhead, ohs, have = oh, strings.Join(kinds, "+"), true
+		} else if strings.Join(kinds, "+") != ohs {
+			c.r.bad(rule, key, fmt.Sprintf("item.%s is stored as size + [%s] here and as size + [%s] elsewhere: entries are charged with different overheads", f.Name(), strings.Join(kinds, "+"), ohs), []string{c.w.ipos(ds)})
+			d.ok = false
+		}
+	}
+	// the field has one definition: reads of it are decomposed with it (a size that is set without the field being
+	// recomputed is reported here, once, instead of making every counter update that reads the field undecomposable)
+	d.defined = d.ok
+	isRet := func(i ssa.Instruction) bool { _, ok := i.(*ssa.Return); return ok }
+	for _, ss := range sStores {
+		item := itemOf(ss)
+		beside := false
+		var after []ssa.Instruction
+		for _, ds := range dStores {
+			t, ok := sizeTerm[ds]
+			if !ok || ds.Parent() != ss.Parent() || itemOf(ds) != item {
+				continue
+			}
+			switch {
+			case t.val != nil:
+				if (t.val == ss.Val || t.val == peelConv(ss.Val)) && (before(ds, ss) || before(ss, ds)) {
+					beside = true
+				}
+			case t.load != nil && t.load.Parent() == ss.Parent() && before(ss, t.load):
+				after = append(after, ds)
+			}
+		}
+		if beside {
+			continue
+		}
+		isAfter := func(i ssa.Instruction) bool {
+			for _, x := range after {
+				if x == i {
+					return true
+				}
+			}
+			return false
+		}
+		if w := c.fc.pathAvoiding(ss.Parent(), ss, isRet, isAfter); w != nil {
+			c.r.bad(rule, key, "an item's size is set without recomputing item."+f.Name()+", which the byte counter is kept in terms of: the entry keeps the cost of its previous bitmap, and when it is evicted later that stale cost is subtracted — the counter drifts away from the sum of the stored entries and the byte bound no longer holds", []string{c.w.ipos(ss)}, c.fc.witnessStrings(w)...)
+			d.ok = false
+		}
+	}
+	if d.ok {
+		c.r.ok(rule, key, fmt.Sprintf("item.%s == item.size + [%s] at each of its %d stores, and recomputed after each of the %d stores of item.size", f.Name(), ohs, len(dStores), len(sStores)), c.w.ipos(dStores[0]))
+	}
+	L.derived[f] = d
+	return d
+}
+
 func (L *lruCtx) account() {
 	const rule = "C07.account"
 	c := L.c
@@ -637,8 +1158,17 @@ func (L *lruCtx) account() {
 			}
 		}
 	})
+	viaStores := map[*types.Var][]*ssa.Store{}
 	when := func(t costTerm) string {
-		for _, st := range sizeStores {
+		stores := sizeStores
+		if t.via != nil {
+			// the size as cached in a derived field: old or new is decided by the stores of that field
+			if _, ok := viaStores[t.via]; !ok {
+				viaStores[t.via] = storesTo(c.scope(put, 2), t.via)
+			}
+			stores = viaStores[t.via]
+		}
+		for _, st := range stores {
 			fa := st.Addr.(*ssa.FieldAddr)
 			if peel(fa.X) != t.item || t.load == nil || t.load.Parent() != st.Parent() {
 				continue
@@ -920,6 +1450,16 @@ func (L *lruCtx) account() {
 	}
 }
 
+// An incSite is an instruction of a function that increments a metrics counter (unless the counter is nil): the Inc
+// call itself, a call of a helper that increments the counter it is handed, or a call of a helper that does the
+// counting of the function (`c.recordGet(ok)`). cond != nil: the helper increments the counter exactly when its
+// boolean parameter, bound to cond at the call, equals pol (hit/miss counting moved behind a flag).
+type incSite struct {
+	i    ssa.Instruction
+	cond ssa.Value
+	pol  bool
+}
+
 func (L *lruCtx) counters() {
 	const rule = "C07.counters"
 	c := L.c
@@ -928,27 +1468,85 @@ func (L *lruCtx) counters() {
 		c.r.undecided(rule, "<anchor>", "CacheMetrics not found")
 		return
 	}
-	incs := func(fn *ssa.Function, name string) []ssa.Instruction {
-		var out []ssa.Instruction
+	isRet := func(j ssa.Instruction) bool {
+		r, ok := j.(*ssa.Return)
+		return ok && !isRecoverBlockReturn(r)
+	}
+	nilEdge := func(name string) func(pred, succ *ssa.BasicBlock) bool {
+		return func(pred, succ *ssa.BasicBlock) bool {
+			iff, ok := pred.Instrs[len(pred.Instrs)-1].(*ssa.If)
+			if !ok {
+				return false
+			}
+			for _, cm := range trueCmps(fact{iff.Cond, pred.Succs[0] == succ}) {
+				if cm.Op == token.EQL && cm.Y != nil && isNilConst(cm.Y) {
+					if f := srcField(cm.X); f != nil && f.Name() == name && c.w.ownerOf(f) == metricsT {
+						return true
+					}
+				}
+			}
+			return false
+		}
+	}
+	// flagEdge: the branch on the boolean v (possibly negated) taken in the direction v == val
+	flagEdge := func(v ssa.Value, val bool) func(pred, succ *ssa.BasicBlock) bool {
+		return func(pred, succ *ssa.BasicBlock) bool {
+			iff, ok := pred.Instrs[len(pred.Instrs)-1].(*ssa.If)
+			if !ok || len(pred.Succs) != 2 || pred.Succs[0] == pred.Succs[1] {
+				return false
+			}
+			for _, cm := range trueCmps(fact{iff.Cond, pred.Succs[0] == succ}) {
+				if cm.Y == nil && cm.X == v && (cm.Op == token.EQL) == val {
+					return true
+				}
+			}
+			return false
+		}
+	}
+	inSites := func(l []incSite) func(ssa.Instruction) bool {
+		return func(i ssa.Instruction) bool {
+			for _, x := range l {
+				if x.i == i {
+					return true
+				}
+			}
+			return false
+		}
+	}
+	type sitesKey struct {
+		fn   *ssa.Function
+		name string
+	}
+	cache := map[sitesKey][]incSite{}
+	opaque := map[sitesKey]ssa.Instruction{} // a helper call that increments the counter in a way that cannot be summarised
+	var incs func(fn *ssa.Function, name string, depth int) []incSite
+	incs = func(fn *ssa.Function, name string, depth int) []incSite {
+		k := sitesKey{fn, name}
+		if out, ok := cache[k]; ok {
+			return out
+		}
+		cache[k] = nil // recursion
+		var out []incSite
 		allInstrs(fn, func(i ssa.Instruction) {
 			call, ok := i.(*ssa.Call)
 			if !ok || !call.Call.IsInvoke() || call.Call.Method.Name() != "Inc" {
 				return
 			}
 			if f := path(call.Call.Value).lastField(); f != nil && f.Name() == name && c.w.ownerOf(f) == metricsT {
-				out = append(out, i)
+				out = append(out, incSite{i: i})
 			}
 		})
-		// a helper that increments the counter it is given (`count(c.metrics.X)` with `if m != nil { m.Inc() }` inside)
 		allInstrs(fn, func(i ssa.Instruction) {
 			call, ok := i.(*ssa.Call)
 			if !ok {
 				return
 			}
 			h := calleeFunc(&call.Call)
-			if h == nil || !c.w.inModule(h) || h.Blocks == nil {
+			if h == nil || h == fn || !c.w.inModule(h) || h.Blocks == nil {
 				return
 			}
+			// a helper that increments the counter it is given (`count(c.metrics.X)` with `if m != nil { m.Inc() }` inside)
+			handed := false
 			for k, a := range call.Call.Args {
 				if k >= len(h.Params) {
 					continue
@@ -956,6 +1554,7 @@ func (L *lruCtx) counters() {
 				if f := path(a).lastField(); f == nil || f.Name() != name || c.w.ownerOf(f) != metricsT {
 					continue
 				}
+				handed = true
 				par := ssa.Value(h.Params[k])
 				// every path through the helper increments the parameter exactly when it is non-nil
 				isInc := func(j ssa.Instruction) bool {
@@ -974,69 +1573,157 @@ func (L *lruCtx) counters() {
 					}
 					return false
 				}
-				isRet := func(j ssa.Instruction) bool { _, ok := j.(*ssa.Return); return ok }
 				if c.fc.pathFrom(h, nil, isRet, isInc, nilEdgeP) == nil && c.fc.mayContain(h, isInc, 0) {
-					out = append(out, i)
+					out = append(out, incSite{i: i})
 				}
+			}
+			if handed || depth <= 0 {
+				return
+			}
+			// a helper that does the counting itself, reading the counters from the same cache (`c.recordGet(ok)`): its
+			// own increments are summarised — on every path exactly once unless the counter is nil, or exactly so on the
+			// paths on which a boolean parameter has one value and never on the others. The summary is what the inline
+			// code is checked for, so a helper that forgets a path, counts twice or counts under the wrong flag is
+			// still reported (at the call, or here as opaque).
+			if h.Signature.Recv() != nil && (len(fn.Params) == 0 || len(call.Call.Args) == 0 || call.Call.Args[0] != ssa.Value(fn.Params[0])) {
+				return // the counters of some other cache
+			}
+			l := incs(h, name, depth-1)
+			if len(l) == 0 {
+				return
+			}
+			for _, x := range l {
+				if x.cond != nil {
+					opaque[k] = i // a flag handed on through two levels: not followed
+					return
+				}
+			}
+			once := true
+			for _, x := range l {
+				if c.fc.pathAvoiding(h, x.i, inSites(l), nil) != nil {
+					once = false
+				}
+			}
+			if once && c.fc.pathFrom(h, nil, isRet, inSites(l), nilEdge(name)) == nil {
+				out = append(out, incSite{i: i})
+				return
+			}
+			for pk, par := range h.Params {
+				if b, ok := par.Type().Underlying().(*types.Basic); !ok || b.Kind() != types.Bool || pk >= len(call.Call.Args) || !once {
+					continue
+				}
+				for _, pol := range []bool{true, false} {
+					other := flagEdge(par, !pol)
+					cut := func(pred, succ *ssa.BasicBlock) bool { return nilEdge(name)(pred, succ) || other(pred, succ) }
+					if c.fc.pathFrom(h, nil, isRet, inSites(l), cut) != nil {
+						continue // some path with par == pol does not count
+					}
+					// … and no increment is reachable unless the branch par == pol was taken
+					only := true
+					for _, x := range l {
+						x := x
+						if c.fc.pathFrom(h, nil, func(j ssa.Instruction) bool { return j == x.i }, nil, flagEdge(par, pol)) != nil {
+							only = false
+						}
+					}
+					if !only {
+						continue
+					}
+					cond, p := call.Call.Args[pk], pol
+					for {
+						u, ok := cond.(*ssa.UnOp)
+						if !ok || u.Op != token.NOT {
+							break
+						}
+						cond, p = u.X, !p
+					}
+					if kb, isK := constBool(cond); isK {
+						if kb == p {
+							out = append(out, incSite{i: i})
+						}
+						return
+					}
+					out = append(out, incSite{i: i, cond: cond, pol: p})
+					return
+				}
+			}
+			opaque[k] = i
+		})
+		cache[k] = out
+		return out
+	}
+	anyRet := isRet
+	// effective: the sites that count on the way to return r — an unconditional site always, a flagged site when the
+	// flag is known at r to have the counting value; a flagged site whose flag is not decided at r is returned apart.
+	effective := func(l []incSite, r ssa.Instruction) (eff, open []incSite) {
+		for _, x := range l {
+			switch {
+			case x.cond == nil:
+				eff = append(eff, x)
+			case (x.pol && knownTrue(x.cond, r)) || (!x.pol && knownFalse(x.cond, r)):
+				eff = append(eff, x)
+			case (x.pol && knownFalse(x.cond, r)) || (!x.pol && knownTrue(x.cond, r)):
+			default:
+				open = append(open, x)
+			}
+		}
+		return
+	}
+	returnsOf := func(fn *ssa.Function, target func(ssa.Instruction) bool) []ssa.Instruction {
+		var out []ssa.Instruction
+		allInstrs(fn, func(i ssa.Instruction) {
+			if target(i) {
+				out = append(out, i)
 			}
 		})
 		return out
 	}
-	nilEdge := func(name string) func(pred, succ *ssa.BasicBlock) bool {
-		return func(pred, succ *ssa.BasicBlock) bool {
-			iff, ok := pred.Instrs[len(pred.Instrs)-1].(*ssa.If)
-			if !ok {
-				return false
-			}
-			for _, cm := range trueCmps(fact{iff.Cond, pred.Succs[0] == succ}) {
-				if cm.Op == token.EQL && cm.Y != nil && isNilConst(cm.Y) {
-					if f := srcField(cm.X); f != nil && f.Name() == name && c.w.ownerOf(f) == metricsT {
-						return true
-					}
-				}
-			}
-			return false
-		}
-	}
-	in := func(l []ssa.Instruction) func(ssa.Instruction) bool {
-		return func(i ssa.Instruction) bool {
-			for _, x := range l {
-				if x == i {
-					return true
-				}
-			}
-			return false
-		}
-	}
-	anyRet := func(i ssa.Instruction) bool {
-		r, ok := i.(*ssa.Return)
-		return ok && !isRecoverBlockReturn(r)
-	}
 	exactlyOnce := func(fn *ssa.Function, name string, target func(ssa.Instruction) bool, what string) {
-		l := incs(fn, name)
+		l := incs(fn, name, 1)
 		key := fmt.Sprintf("%s: %s on %s", safeFname(fn), name, what)
+		if o := opaque[sitesKey{fn, name}]; o != nil {
+			c.r.undecided(rule, key, "a helper increments "+name+" neither on all of its paths nor exactly on the paths selected by one boolean parameter: whether the counter is incremented exactly once cannot be decided", c.w.ipos(o))
+			return
+		}
 		if len(l) == 0 {
 			c.r.bad(rule, key, "the "+name+" counter is never incremented", []string{c.w.pos(fn.Pos())})
 			return
 		}
-		if p := c.fc.pathFrom(fn, nil, target, in(l), nilEdge(name)); p != nil {
-			c.r.bad(rule, key, "a "+what+" is reachable without incrementing "+name+" although the counter is set", []string{c.w.ipos(p[len(p)-1])}, c.fc.witnessStrings(p)...)
-			return
-		}
-		for _, x := range l {
-			if p := c.fc.pathAvoiding(fn, x, in(l), nil); p != nil {
-				c.r.bad(rule, key, name+" can be incremented twice in one call", []string{c.w.ipos(x)}, c.fc.witnessStrings(p)...)
+		for _, r := range returnsOf(fn, target) {
+			r := r
+			eff, open := effective(l, r)
+			if len(open) > 0 {
+				c.r.undecided(rule, key, "the helper called here increments "+name+" depending on a flag whose value is not decided at this "+what, c.w.ipos(open[0].i), c.w.ipos(r))
 				return
 			}
+			if p := c.fc.pathFrom(fn, nil, func(i ssa.Instruction) bool { return i == r }, inSites(eff), nilEdge(name)); p != nil {
+				c.r.bad(rule, key, "a "+what+" is reachable without incrementing "+name+" although the counter is set", []string{c.w.ipos(p[len(p)-1])}, c.fc.witnessStrings(p)...)
+				return
+			}
+			for _, x := range eff {
+				if p := c.fc.pathAvoiding(fn, x.i, inSites(eff), nil); p != nil {
+					c.r.bad(rule, key, name+" can be incremented twice in one call", []string{c.w.ipos(x.i)}, c.fc.witnessStrings(p)...)
+					return
+				}
+			}
 		}
-		c.r.ok(rule, key, "incremented exactly once (unless nil)", c.w.ipos(l[0]))
+		c.r.ok(rule, key, "incremented exactly once (unless nil)", c.w.ipos(l[0].i))
 	}
 	never := func(fn *ssa.Function, name string, target func(ssa.Instruction) bool, what string) {
 		key := fmt.Sprintf("%s: no %s on %s", safeFname(fn), name, what)
-		for _, x := range incs(fn, name) {
-			if p := c.fc.pathAvoiding(fn, x, target, nil); p != nil {
-				c.r.bad(rule, key, name+" is incremented on a path to a "+what, []string{c.w.ipos(x)}, c.fc.witnessStrings(p)...)
-				return
+		l := incs(fn, name, 1)
+		if o := opaque[sitesKey{fn, name}]; o != nil {
+			c.r.undecided(rule, key, "a helper increments "+name+" in a way the rule cannot summarise", c.w.ipos(o))
+			return
+		}
+		for _, r := range returnsOf(fn, target) {
+			r := r
+			eff, open := effective(l, r)
+			for _, x := range append(eff, open...) {
+				if p := c.fc.pathAvoiding(fn, x.i, func(i ssa.Instruction) bool { return i == r }, nil); p != nil {
+					c.r.bad(rule, key, name+" is incremented on a path to a "+what, []string{c.w.ipos(x.i)}, c.fc.witnessStrings(p)...)
+					return
+				}
 			}
 		}
 		c.r.ok(rule, key, "never incremented on that path", c.w.pos(fn.Pos()))
@@ -1059,11 +1746,15 @@ func (L *lruCtx) counters() {
 	never(get, "CacheMiss", foundRet(true), "hit return")
 	never(get, "CacheHit", foundRet(false), "miss return")
 	for _, n := range []string{"CacheHit", "CacheMiss", "GetCall"} {
-		if l := incs(put, n); len(l) > 0 {
-			c.r.bad(rule, safeFname(put)+": "+n, "Put increments the "+n+" counter", []string{c.w.ipos(l[0])})
+		if l := incs(put, n, 1); len(l) > 0 {
+			c.r.bad(rule, safeFname(put)+": "+n, "Put increments the "+n+" counter", []string{c.w.ipos(l[0].i)})
+		} else if o := opaque[sitesKey{put, n}]; o != nil {
+			c.r.bad(rule, safeFname(put)+": "+n, "Put increments the "+n+" counter", []string{c.w.ipos(o)})
 		}
 	}
-	if l := incs(get, "PutCall"); len(l) > 0 {
-		c.r.bad(rule, safeFname(get)+": PutCall", "Get increments the PutCall counter", []string{c.w.ipos(l[0])})
+	if l := incs(get, "PutCall", 1); len(l) > 0 {
+		c.r.bad(rule, safeFname(get)+": PutCall", "Get increments the PutCall counter", []string{c.w.ipos(l[0].i)})
+	} else if o := opaque[sitesKey{get, "PutCall"}]; o != nil {
+		c.r.bad(rule, safeFname(get)+": PutCall", "Get increments the PutCall counter", []string{c.w.ipos(o)})
 	}
 }
